@@ -99,7 +99,7 @@ pub fn check_adapter_history(h: &History, cc: &mut CaseCtx) -> CheckResult {
                     Ok(GetSigningKeyResponse::builder().signing_key(k.to_ksigning(req.request_date(), req.region(), req.service())).build().map_err(|e| Box::new(exec::ForeignError(e.to_string())) as tower::BoxError)?)
                 }
                 13 => Err(Box::new(exec::ForeignError("backend unreachable".into())) as tower::BoxError),
-                k => Err(Box::new(exec::make_sig_err(Kind::ALL[(k as usize - 1) % 12], &format!("provider says no #{}", k))) as tower::BoxError),
+                k => Err(Box::new(exec::make_sig_err(Kind::ALL[(k as usize - 1) % 12], &format!("provider says no #{} ({})", k, secret.len() % 16))) as tower::BoxError),
             }
         }
     };
@@ -178,6 +178,14 @@ fn answer_of(code: u8) -> Answer {
     }
 }
 
+/// same, with a message that varies per step (the io::ErrorKind of an IO answer is derived from the message)
+fn answer_of_step(code: u8, salt: u8) -> Answer {
+    match answer_of(code) {
+        Answer::SigErr(k, m) => Answer::SigErr(k, format!("{} ({})", m, salt % 16)),
+        other => other,
+    }
+}
+
 pub fn step_case(s: &Step) -> Case {
     use Defect::*;
     let mut defects = s.req.defects.clone();
@@ -199,9 +207,9 @@ pub fn step_case(s: &Step) -> Case {
     }
     let mut case = build(&s.req, &defects);
     case.prov.ready_pending = s.ready_pending;
-    case.prov.ready_err = s.ready_err.map(answer_of);
+    case.prov.ready_err = s.ready_err.map(|c| answer_of_step(c, s.req.variant));
     case.prov.call_pending = s.call_pending;
-    case.prov.answer = answer_of(s.answer);
+    case.prov.answer = answer_of_step(s.answer, s.req.variant);
     if s.wrong_secret {
         case.prov.keys[0].secret = "not-the-signing-secret".into();
     }
